@@ -571,6 +571,7 @@ def standard_check(ctx, gen, mods, components, oracle_fn, level_note, assume, ne
             corr.append(correspond(ctx, comp, ctx.q(nq, nt)))
     orc = None
     if ok_impl:
+        ctx.corr_results = corr
         orc = oracle_fn(ctx) if oracle_fn else None
         if extra_corr_fn and ok_drv:
             corr += extra_corr_fn(ctx)
